@@ -36,6 +36,21 @@ type Client struct {
 	prio  int
 	Log   []string // per-client event log (merged after the run)
 	Steps int
+	Sites [len(SiteNames)]int64 // yields per site (per client; summed after the run)
+}
+
+// SiteNames are the yield sites counted separately in the evidence.
+var SiteNames = [...]string{"resolve:globals", "fieldcache:read", "fieldcache:fill", "AddGlobal", "LookupGlobal", "getTemplate:miss", "getTemplate:put",
+	"cache:Get", "cache:Put", "InMemLoader:Open", "InMemLoader:Exists", "InMemLoader:Set", "InMemLoader:Delete", "loader:Exists", "loader:Open", "writer:Write", "other"}
+
+//go:norace
+func siteIndex(site string) int {
+	for i := 0; i < len(SiteNames)-1; i++ {
+		if SiteNames[i] == site {
+			return i
+		}
+	}
+	return len(SiteNames) - 1
 }
 
 type Sched struct {
@@ -117,6 +132,7 @@ func (s *Sched) Yield(site string) {
 	}
 	c := s.curClient()
 	c.Steps++
+	c.Sites[siteIndex(site)]++
 	StealthBegin()
 	s.back <- c.ID
 	<-c.wake
